@@ -1,0 +1,78 @@
+//go:build verif
+
+package vgirpc
+
+import (
+	"sort"
+
+	"github.com/apache/arrow-go/v18/arrow"
+)
+
+// Verification hooks for property C16 (HTTP continuations advance the stream
+// exactly one turn). Add-only; compiled only with -tags verif.
+//
+// Constants are read off the compiled tables / recovered by calling the real
+// functions, never copied by hand.
+
+func init() {
+	verifConstProviders = append(verifConstProviders, func() []VerifConst {
+		keys := make([]string, 0, len(frameworkTickMetadataKeys))
+		for k := range frameworkTickMetadataKeys {
+			keys = append(keys, k)
+		}
+		sort.Strings(keys)
+		// stripFrameworkTickMetadata on a probe: two user keys around every
+		// framework key, a duplicated user key; 1 when the survivors are exactly
+		// the user entries in their original relative order
+		pk := []string{"u1"}
+		pv := []string{"a"}
+		for _, k := range keys {
+			pk = append(pk, k, "u2", k)
+			pv = append(pv, "t", "b", "t2")
+		}
+		pk = append(pk, "u1")
+		pv = append(pv, "c")
+		got := stripFrameworkTickMetadata(arrow.NewMetadata(pk, pv))
+		var wk, wv []string
+		for i, k := range pk {
+			if k == "u1" || k == "u2" {
+				wk = append(wk, k)
+				wv = append(wv, pv[i])
+			}
+		}
+		ok := int64(1)
+		if len(got.Keys()) != len(wk) {
+			ok = 0
+		} else {
+			for i := range wk {
+				if got.Keys()[i] != wk[i] || got.Values()[i] != wv[i] {
+					ok = 0
+				}
+			}
+		}
+		return []VerifConst{
+			verifBytes("c16_meta_stream_state", MetaStreamState),
+			verifBytes("c16_meta_call_state", MetaCallState),
+			verifBytes("c16_meta_cancel", MetaCancel),
+			verifList("c16_framework_keys", keys),
+			verifNum("c16_strip_probe_ok", ok),
+		}
+	})
+}
+
+// VerifC16Strip drives stripFrameworkTickMetadata on an arbitrary ordered
+// key/value list.
+func VerifC16Strip(keys, vals []string) (outKeys, outVals []string) {
+	m := stripFrameworkTickMetadata(arrow.NewMetadata(keys, vals))
+	return m.Keys(), m.Values()
+}
+
+// VerifC16OpenCursor opens a cursor token the way handleStreamExchange does
+// for an unauthenticated caller and returns the state it seals and its call id.
+func VerifC16OpenCursor(h *HttpServer, tok []byte) (state interface{}, callID string, err error) {
+	d, err := h.openCursorToken(tok, Anonymous())
+	if err != nil {
+		return nil, "", err
+	}
+	return d.State, d.CallID, nil
+}
